@@ -225,12 +225,14 @@ def run_config(chk, config):
         used = [c for c in st.cons if (views & set(c[0].t)) and c[0].key() not in defs and not (len(c[0].t) == 2 and set(c[0].t) <= views)]
         if used and o["version"] != "Yes":
             problems.append("the version nibble influences the result although version checking is %s" % o["version"])
-        if o["version"] == "Yes" and vi == 0 and not eng.ent(st, c_eq(Lin.sym(rver), Lin.const(hs["version"]))):
-            problems.append("accepted under version checking without version == %d" % hs["version"])
-        if o["reserved"] == "Yes" and vi == 0 and not all(facts.get(k) is False for k in hs["reserved"]):
-            problems.append("accepted under reserved checking without all reserved bits clear")
-        if o["unused"] == "Yes" and vi == 0 and is_control and not (facts.get(hs["P"]) is False and facts.get(hs["O"]) is False):
-            problems.append("control message accepted under unused-field checking without P and O clear")
+        # an accepting path on which an option was never consulted stands for both of its values: for Yes it must
+        # still have established what that check requires
+        if o["version"] in ("Yes", None) and vi == 0 and not eng.ent(st, c_eq(Lin.sym(rver), Lin.const(hs["version"]))):
+            problems.append("accepted under version checking without version == %d%s" % (hs["version"], "" if o["version"] else " (the option is not consulted on this path)"))
+        if o["reserved"] in ("Yes", None) and vi == 0 and not all(facts.get(k) is False for k in hs["reserved"]):
+            problems.append("accepted under reserved checking without all reserved bits clear%s" % ("" if o["reserved"] else " (the option is not consulted on this path)"))
+        if o["unused"] in ("Yes", None) and vi == 0 and is_control and not (facts.get(hs["P"]) is False and facts.get(hs["O"]) is False):
+            problems.append("control message accepted under unused-field checking without P and O clear%s" % ("" if o["unused"] else " (the option is not consulted on this path)"))
         if vi == 1 and isinstance(payload, VRef):
             vv = st.cells.get(payload.cell)
             if isinstance(vv, VVec) and vv.elems:
